@@ -406,12 +406,6 @@ func (ex *Exec) applyContract(st *State, fn *ssa.Function, c *Contract, args []V
 	// 2. havoc what the callee may modify. A frame clause that is not part of this property's proof is not
 	// assumed: everything is havocked instead.
 	for _, cl := range c.byKind("modifies") {
-		if !relevant(cl, ex.prop) {
-			for i := range comps {
-				st.abs[comps[i].Name] = Fresh("h."+comps[i].Name, comps[i].arraySort())
-			}
-			continue
-		}
 		for _, m := range cl.Mods {
 			tgt := ctx.eval(m)
 			cc, ok := tgt.(CComp)
@@ -454,13 +448,9 @@ func (ex *Exec) applyContract(st *State, fn *ssa.Function, c *Contract, args []V
 			errIdx = i
 		}
 	}
-	emits, calls := relevantClauses(c.byKind("emits"), ex.prop), relevantClauses(c.byKind("calls"), ex.prop)
-	if len(emits) < len(c.byKind("emits")) {
-		st.evTaint = true
-	}
-	if len(calls) < len(c.byKind("calls")) {
-		st.callTaint = true
-	}
+	// every clause of the callee is assumed here; which clauses are *checked* in a property's run is decided
+	// by their tags (see relevant()): a clause is checked under every property it is tagged with.
+	emits, calls := c.byKind("emits"), c.byKind("calls")
 	branches := []*State{st}
 	var succ []bool
 	if errIdx >= 0 && (len(emits) > 0 || len(calls) > 0) {
@@ -527,9 +517,6 @@ func (ex *Exec) applyContract(st *State, fn *ssa.Function, c *Contract, args []V
 		}
 		var facts []*Term
 		for _, cl := range c.byKind("ensures") {
-			if !relevant(cl, ex.prop) {
-				continue
-			}
 			t, err := ectx.EvalBool(cl.E)
 			if err != nil {
 				ex.oblige(bs, "binding", c.Key+"#binding", nil, TFalse, fmt.Sprintf("ensures[%s]: %v", cl.Label, err))
